@@ -22,6 +22,7 @@ type schedState struct {
 	shared  map[interface{}]string
 	threads [][]schedEvent
 	cur     int
+	hb      [][4]int // happens-before edges (thread, event) -> (thread, event): sync.Pool Put -> the Get that returns the item
 }
 
 func (in *Interp) schedMark(v value, what string) {
@@ -98,6 +99,17 @@ func (in *Interp) schedEvent(kind string, obj interface{}) {
 		}
 	}
 	s.threads[s.cur] = append(s.threads[s.cur], schedEvent{kind: kind, obj: obj, where: in.where()})
+}
+
+// schedSync records a synchronisation event of the current call and returns (thread, index), or (-1, -1) outside
+// a Concurrent experiment.
+func (in *Interp) schedSync(kind string, obj interface{}) (int, int) {
+	s := in.sched
+	if s == nil || s.cur < 0 {
+		return -1, -1
+	}
+	s.threads[s.cur] = append(s.threads[s.cur], schedEvent{kind: kind, obj: obj, where: in.where()})
+	return s.cur, len(s.threads[s.cur]) - 1
 }
 
 // concurrent implements verifrt.Concurrent.
@@ -185,6 +197,9 @@ func (in *Interp) schedAnalyse() {
 			}
 			sol.Send(fmt.Sprintf("(assert (or (< %s %s) (< %s %s)))", name(x.thread, x.rel), name(y.thread, y.acq), name(y.thread, y.rel), name(x.thread, x.acq)))
 		}
+	}
+	for _, e := range s.hb {
+		sol.Send(fmt.Sprintf("(assert (< %s %s))", name(e[0], e[1]), name(e[2], e[3])))
 	}
 	queries := 0
 	for ta, ea := range s.threads {
